@@ -48,6 +48,10 @@ def run(ctx: Ctx, rep: Report) -> None:
     clone_rule(ctx, rep)
     grad(ctx, rep)
     iters(ctx, rep)
+    # the backward grid walk is the mirror image of the forward one
+    from ..rules.mirror import rule_mirror
+    it = 'bqskit/ir/iterator.py:CircuitGridIterator.'
+    rule_mirror(ctx, rep, it + 'increment_iter', it + 'decrement_iter')
 
 
 def _loops_over_ops(f) -> list[ast.For]:
